@@ -229,6 +229,212 @@ def ops_file(cases):
         "Eval vm_compute in (find_indexes (fun c => negb (agrees_o c)) cases).\n"
 
 
+# ----------------------------------------------------------------------------- the dict operations (*_that_in)
+IN_HEADER = """From Coq Require Import List Bool NArith ZArith.
+Import ListNotations.
+From LCC Require Import Base.Util Model.PyVal Model.Matcher Model.OpsIn gen.TablesMatchers.
+Inductive opk := OCheck | ORequire | OAssert.
+Definition run_op (k : opk) : op := match k with OCheck => check_that frd_of_source | ORequire => require_that frd_of_source
+                                               | OAssert => assert_that frd_of_source end.
+Definition agrees (c : opk * pyval * eargs * pyval * bool * op_in_obs) : bool :=
+  let '(k, v, a, b, q, o) := c in op_in_obs_eqb (that_in (run_op k) v a b q) o.
+"""
+IN_KEYS = ["a", "b", "ab", 0, 1, 2, None]
+
+
+def gen_earg(rng, depth):
+    r = rng.random()
+    if depth <= 0 or r < 0.45:
+        if rng.random() < 0.04:
+            return ("other", rng.choice([3, "x", None]))
+        return ("m", G.gen_expr(rng, 1))
+    if r < 0.68:
+        return ("list", [gen_earg(rng, depth - 1) for _ in range(rng.choice([0, 1, 1, 2, 3]))])
+    keys = rng.sample(IN_KEYS, rng.choice([0, 1, 1, 2, 3]))
+    return ("dict", [(k, gen_earg(rng, depth - 1)) for k in keys])
+
+
+def build_earg(a):
+    if a[0] == "m":
+        return G.build(a[1])
+    if a[0] == "other":
+        return a[1]
+    if a[0] == "list":
+        return [build_earg(x) for x in a[1]]
+    return {k: build_earg(x) for k, x in a[1]}
+
+
+def c_earg(a):
+    if a[0] == "m":
+        return "(EMatcher %s)" % G.c_expr(a[1])
+    if a[0] == "other":
+        return "EOther"
+    if a[0] == "list":
+        return "(EList %s)" % c_list(a[1], c_earg)
+    return "(EDict %s)" % c_list(a[1], lambda kx: "(%s, %s)" % (G.c_val(kx[0]), c_earg(kx[1])))
+
+
+def leaves_of(a, path=()):
+    """[(path, matcher expression)] in generator order, up to the first malformed element; and whether one was met"""
+    if a[0] == "m":
+        return [(path, a[1])], False
+    if a[0] == "other":
+        return [], True
+    out = []
+    items = list(enumerate(a[1])) if a[0] == "list" else a[1]
+    for k, x in items:
+        ys, bad = leaves_of(x, path + (k,))
+        out += ys
+        if bad:
+            return out, True
+    return out, False
+
+
+def actual_for(rng, leaves):
+    """an actual value shaped after the expected structure (so that entries exist), with random leaves"""
+    root = {}
+    for path, _ in leaves:
+        if not path or rng.random() < 0.15:
+            continue
+        node = root
+        ok = True
+        for k in path[:-1]:
+            if not isinstance(node, dict):
+                ok = False
+                break
+            try:
+                node = node.setdefault(k, {})
+            except TypeError:
+                ok = False
+                break
+        if ok and isinstance(node, dict):
+            try:
+                node[path[-1]] = G.gen_value(rng, 1)
+            except TypeError:
+                pass
+    return root
+
+
+def gen_in_case(rng):
+    op = rng.choice(["check_that_in", "check_that_in", "require_that_in", "assert_that_in"])
+    quiet = rng.random() < 0.2
+    r = rng.random()
+    base = None
+    if rng.random() < 0.3:
+        base = rng.choice(["a", ("a",), ["a", 0], (), 0, ("b", "a")])
+    if r < 0.45:
+        a = gen_earg(rng, 2)
+        while a[0] in ("m", "other") and rng.random() < 0.85:
+            a = gen_earg(rng, 2)
+        args = ("single", a)
+        py_args = [build_earg(a)]
+        leaves, _ = leaves_of(a)
+    elif r < 0.95:
+        pairs = []
+        for _ in range(rng.choice([0, 1, 1, 2, 2, 3])):
+            k = rng.choice(IN_KEYS[:6]) if rng.random() < 0.7 else [rng.choice(["a", "b", 0]) for _ in range(rng.choice([0, 1, 2]))]
+            pairs.append((k, gen_earg(rng, 1)))
+        args = ("pairs", pairs)
+        py_args = []
+        leaves = []
+        for k, x in pairs:
+            py_args += [tuple(k) if isinstance(k, list) and rng.random() < 0.5 else k, build_earg(x)]
+            ys, bad = leaves_of(x, tuple(k) if isinstance(k, list) else (k,))
+            leaves += ys
+            if bad:
+                break
+    else:
+        args = ("odd",)
+        py_args = ["a", G.build(("equal_to", 1)), "b"]
+        leaves = []
+    basepath = () if base is None else (tuple(base) if isinstance(base, (list, tuple)) else (base,))
+    inner = actual_for(rng, leaves) if rng.random() < 0.7 else G.gen_value(rng, 3)
+    actual = inner
+    for k in reversed(basepath):
+        actual = {k: actual} if not isinstance(k, (list, dict)) else actual
+    if rng.random() < 0.1:
+        actual = G.gen_value(rng, 2)
+    return {"op": op, "actual": actual, "args": args, "py_args": py_args, "base": base, "quiet": quiet, "n_leaves": len(leaves)}
+
+
+def c_eargs(args):
+    if args[0] == "single":
+        return "(ASingle %s)" % c_earg(args[1])
+    if args[0] == "pairs":
+        return "(APairs %s)" % c_list(args[1], lambda kx: "(%s, %s)" % (G.c_val(kx[0]), c_earg(kx[1])))
+    return "AOdd"
+
+
+def c_in_obs(o):
+    checks = c_list(o["checks"], lambda c: "{| ck_ok := %s; ck_details := %s |}" % (c_bool(c[1]), G.details_class(c[2])))
+    out = "ReturnsAll %s" % c_list(o["outcome"][1], c_bool) if o["outcome"][0] == "ret" else "RaisesIn %s" % o["outcome"][2]
+    return "(%s, %s)" % (checks, out)
+
+
+def check_ops_in(run):
+    """check_that_in / require_that_in / assert_that_in executed in a real test against OpsIn.that_in, plus their contract
+    evaluated on what was recorded."""
+    n = 400 if run.tier == "quick" else 12000
+    cases = [gen_in_case(run.rng) for _ in range(n)]
+    obs = []
+    for k in range(0, len(cases), 500):
+        obs += I.run_operations_in([(c["op"], c["actual"], c["py_args"], c["base"], c["quiet"]) for c in cases[k:k + 500]])
+    rows = []
+    for c, o in zip(cases, obs):
+        run.evaluations += 1
+        run.count("in_operations")
+        run.count("in_operation:" + c["op"])
+        run.count("in_outcome:" + (o["outcome"][0] if o["outcome"][0] == "ret" else o["outcome"][1]))
+        if len(o["checks"]) >= 2:
+            run.nontrivial.add("in%d" % len(rows))
+            run.count("in_operations_recording_two_checks_or_more")
+        # the contract on the recorded facts: a returned list has one verdict per check recorded (check / require), every check
+        # recorded before an AbortTest but the last is successful (require / assert), a plain failed match never raises (check)
+        kind, desc = None, None
+        oks = [ck[1] for ck in o["checks"]]
+        if o["outcome"][0] == "ret":
+            if c["op"] != "assert_that_in" and oks != o["outcome"][1]:
+                kind, desc = "in-verdicts-differ-from-checks", "returned %r, recorded %r" % (o["outcome"][1], oks)
+            if c["op"] != "check_that_in" and not all(o["outcome"][1]):
+                kind, desc = "in-failure-without-abort", "%s returned %r without raising" % (c["op"], o["outcome"][1])
+            if c["op"] == "assert_that_in" and oks:
+                kind, desc = "in-assert-records-success", "assert_that_in recorded %r and returned" % (oks,)
+        elif o["outcome"][1] == "AbortTest":
+            if c["op"] == "check_that_in":
+                kind, desc = "in-check-raises-abort", "check_that_in raised AbortTest"
+            elif not oks or oks[-1] or not all(oks[:-1]):
+                kind, desc = "in-abort-without-failed-check", "%s raised AbortTest, recorded %r" % (c["op"], oks)
+        if kind:
+            run.violation("oracle:" + kind, desc, {"kind": "in-operation", "op": c["op"], "actual": c["actual"], "args": repr(c["args"]),
+                                                  "base": repr(c["base"]), "quiet": c["quiet"], "observed": o})
+        try:
+            base = c["base"]
+            c_base = "(VList [])" if base is None else G.c_val(list(base) if isinstance(base, (list, tuple)) else base)
+            rows.append(("(%s, %s, %s, %s, %s, %s)" % (OPK[c["op"][:-3]], G.c_val(c["actual"]), c_eargs(c["args"]), c_base,
+                                                      c_bool(c["quiet"]), c_in_obs(o)),
+                         {"op": c["op"], "actual": c["actual"], "args": repr(c["args"]), "base": repr(c["base"]), "quiet": c["quiet"],
+                          "observed": o}))
+        except ValueError as e:
+            run.count("in_operations_not_representable")
+    if not getattr(run, "model_ok", False) or not rows:
+        return
+    relation = "OpsIn.that_in = check_that_in / require_that_in / assert_that_in executed in a real test"
+    shards = [rows[i:i + 400] for i in range(0, len(rows), 400)]
+    files = [("opsin%d" % k, IN_HEADER + "Definition cases : list (opk * pyval * eargs * pyval * bool * op_in_obs) := [\n%s\n].\n"
+              % ";\n".join(r[0] for r in sh) + "Eval vm_compute in (find_indexes (fun c => negb (agrees c)) cases).\n")
+             for k, sh in enumerate(shards)]
+    reported = 0
+    for k, (rc, out) in enumerate(run.coq_eval_many(files)):
+        bad = lib.parse_nat_list(out) if rc == 0 else None
+        if bad is None:
+            run.tie_broken(relation, detail="case file did not evaluate: " + out[-1500:])
+            continue
+        for idx in bad:
+            if reported < 2:
+                run.tie_broken(relation, case=shards[k][idx][1])
+                reported += 1
+
+
 # ----------------------------------------------------------------------------- the check
 # hand-picked corners of Python's operators, run first
 CORNERS = [
@@ -272,12 +478,12 @@ def check(run):
     run.assume += [
         "actual and expected values are None, bool, int, str, list or dict (no float, tuple, set, bytes, user classes); "
         "is_between bounds are ints; starts_with/ends_with/contains_string receive a str",
-        "match_pattern, is_text, is_float, custom EntryMatcher and the *_in operations are not modelled; is_json only by its verdict (= py_eq), on structures whose dicts have keys of one kind (json.dumps(sort_keys=True) must be able to order them)",
+        "match_pattern, is_text, is_float, custom EntryMatcher are not modelled; of the *_in operations the expected structure, the key paths, the order, the verdicts and what escapes are modelled (Model/OpsIn.v), the wording of their checks is not; is_json only by its verdict (= py_eq), on structures whose dicts have keys of one kind (json.dumps(sort_keys=True) must be able to order them)",
         "DISPLAY_DETAILS_WHEN_EQUAL keeps its default (True)",
         "the operations are called from a running test (log_check needs a session)",
     ]
     run.prove(extra_targets=["theories/Base/Util.vo", "theories/Model/PyVal.vo", "theories/Model/Matcher.vo",
-                             "theories/gen/TablesMatchers.vo"])
+                             "theories/Model/OpsIn.vo", "theories/gen/TablesMatchers.vo"])
     quick = run.tier == "quick"
     n_expr = 2000 if quick else 100000
     n_ops = 1500 if quick else 40000
@@ -432,6 +638,7 @@ def check(run):
                     (op, e, v, q, h), o = oshards[k - nm][idx]
                     run.tie_broken("%s (model, _format_result_details as in the source) = %s (real run)" % (op, op),
                                    case={"op": op, "expr": repr(e), "value": repr(v), "quiet": q}, impl=o)
+    check_ops_in(run)
     run.coverage["rule"] = (
         "seeded random expressions over all modelled public constructors (depth 0..4, value arguments through is_, "
         "hide_result_details 12%, override_description 5%) x 12 values each from a fixed separating core plus random nested "
